@@ -13,6 +13,7 @@ reply   : err=1 | err=0 nv=<n> walk=<views> look=<views> spec_walk=<views> spec_
 import Scalibr.Base.Wire
 import Scalibr.Model.OverlayImage
 import Scalibr.Spec.Overlay
+import Scalibr.Spec.OverlayRequired
 open Scalibr Scalibr.Wire Scalibr.Overlay Scalibr.GoPath
 
 def hexS (s : String) : String := if s = "" then "-" else hexOfStr s
@@ -71,13 +72,6 @@ def probeSegs (p : String) : Path := if p = "." || p = "" then [] else p.splitOn
 def prefixesOf (p : Path) : List Path := (List.range (p.length + 1)).map p.take
 
 def specContent (_ : Path) (n : Node) : String := if n.size = 0 then "e" else s!"c{n.cid % 26}n{n.size}"
-
-/-- the spec's final view under a requirer: directories stay, other nodes only when needed -/
-def specRequired (U : List Path) (req : Path → Bool) (depth : Nat) (t : Tree) : Tree :=
-  let marked := neededSet U t req depth
-  ⟨fun q => match t q with
-    | some n => if n.kind = .dir || n.wh || req q || marked.contains q then some n else none
-    | none => none⟩
 
 /-- a file rejected for its size leaves bytes in the layer directory; when the same tar names that path again the
 accepted file is written over them without truncation. Duplicate member names: ill-formed, outside `H`'s scope
